@@ -24,7 +24,9 @@ EXTENDS KS, Json, SequencesExt
 CONSTANT MaxN        \* largest cell count per direction
 
 Types == {"cartesian", "chunk", "annulus", "sphere"}
-Configs == {g \in [type : Types, dim : {2, 3}, nx : 1..MaxN, ny : 1..MaxN, nz : 1..MaxN] :
+(* full: the sphere reaches down to the centre (z_min = 0) instead of being a shell *)
+Configs == {g \in [type : Types, dim : {2, 3}, nx : 1..MaxN, ny : 1..MaxN, nz : 1..MaxN, full : BOOLEAN] :
+              /\ (g.full => g.type = "sphere")
               /\ (g.dim = 2 => g.ny = 1)
               /\ (g.type = "annulus" => g.dim = 2 /\ g.nx = 1)
               /\ (g.type = "sphere" => g.dim = 3 /\ g.nx = g.ny /\ g.nx <= 2 /\ g.nz <= 2)
@@ -37,14 +39,14 @@ GridFile(g) ==
   (CASE g.type = "cartesian" -> <<"x_min = 0", "x_max = 600e3", "y_min = 100e3", "y_max = 400e3", "z_min = 400e3", "z_max = 1000e3">>
      [] g.type = "chunk"     -> <<"x_min = 0", "x_max = 12", "y_min = 0", "y_max = 6", "z_min = 5771000", "z_max = 6371000">>
      [] g.type = "annulus"   -> <<"x_min = 0", "x_max = 1", "y_min = 0", "y_max = 1", "z_min = 4371000", "z_max = 6371000">>
-     [] g.type = "sphere"    -> <<"x_min = 0", "x_max = 1", "y_min = 0", "y_max = 1", "z_min = 5371000", "z_max = 6371000">>) \o
+     [] g.type = "sphere"    -> <<"x_min = 0", "x_max = 1", "y_min = 0", "y_max = 1", "z_min = " \o (IF g.full THEN "0" ELSE "5371000"), "z_max = 6371000">>) \o
   <<"n_cell_x = " \o S(g.nx), "n_cell_y = " \o S(g.ny), "n_cell_z = " \o S(g.nz)>>
 
 (* bounds as numbers for the trace converter: <<x_min, x_max, y_min, y_max, z_min, z_max>> *)
 Bounds(g) == CASE g.type = "cartesian" -> <<0, 600000, 100000, 400000, 400000, 1000000>>
                [] g.type = "chunk"     -> <<0, 12, 0, 6, 5771000, 6371000>>
                [] g.type = "annulus"   -> <<0, 1, 0, 1, 4371000, 6371000>>
-               [] g.type = "sphere"    -> <<0, 1, 0, 1, 5371000, 6371000>>
+               [] g.type = "sphere"    -> <<0, 1, 0, 1, IF g.full THEN 0 ELSE 5371000, 6371000>>
 
 Sph(g) == g.type # "cartesian"
 WorldDoc(g) == World(IF Sph(g) THEN Spherical("begin segment") ELSE Cartesian, KSFeatures(Sph(g)))
